@@ -145,6 +145,8 @@ pub struct Core {
     pub below_base_writes: u64,
     /// transient fault: the next `fail_next` operations fail, later ones succeed again
     pub fail_next: u64,
+    /// transient fault: exactly the operation with this index fails
+    pub fail_once_at: Option<u64>,
 }
 
 impl Core {
@@ -166,6 +168,7 @@ impl Core {
             base: 0,
             below_base_writes: 0,
             fail_next: 0,
+            fail_once_at: None,
             transfers: 0,
             short_transfers: 0,
             max_len: 1 << 32,
@@ -178,6 +181,9 @@ impl Core {
         let mut fail = false;
         if self.fail_next > 0 {
             self.fail_next -= 1;
+            fail = true;
+        }
+        if self.fail_once_at == Some(idx) {
             fail = true;
         }
         if let Some(k) = self.fail_from {
